@@ -67,6 +67,7 @@ class P:
         n = 6000 if tier == "quick" else 80000
         cases = []
         g = G.Gen(rnd)
+        g.ml_bodies = False     # bodies are compared as printed text; the printer re-indents multi-line expansions
         g.with_comments = True
         tries = 0
         while len(cases) < n and tries < n * 6:
